@@ -455,6 +455,9 @@ func run(c *fw.Ctx) {
 		c.Count("marker-exhaustive:" + strings.Fields(res)[0])
 	})
 
+	// --- universes: several near-identical guarded requirements on ONE resolver
+	runUniverses(c, checkMarker)
+
 	validateAgainstPackaging(c, py)
 }
 
